@@ -22,8 +22,12 @@ from vlib.build import BuildError
 from tools.gen import value as gen_value
 from tools.gen.csrc import ExtractError
 
-THEOREMS = [
-]
+THEOREMS = ["JanetModel.Props.C03." + t for t in (
+    "equals_refl", "equals_symm", "equals_trans", "equals_iff_content", "equals_hash",
+    "compare_antisymm", "compare_trans", "compare_lt_of_lt_of_le", "compare_lt_of_le_of_lt", "compare_total", "compare_total_order",
+    "compare_eq_zero_iff_equals", "compare_congr", "lt_le_gt_ge_agree",
+    "tuple_by_content", "struct_by_slots", "ref_by_identity", "symbol_identity_iff_bytes",
+)]
 ENV = dict(os.environ, ASAN_OPTIONS="detect_leaks=0:abort_on_error=0", UBSAN_OPTIONS="print_stacktrace=1")
 HARNESS_SRC = os.path.join(VERIF, "harness/C03/pool.c")
 CORPUS = os.path.join(VERIF, "corpus/C03")
